@@ -3276,6 +3276,74 @@ class PyCdlib:
 
         return num_bytes_to_add
 
+    def _check_new_paths(self, iso_path, rr_name, joliet_path, udf_path,
+                         is_dir, rr_optional=False):
+        # type: (Optional[str], Optional[str], Optional[str], Optional[str], bool, bool) -> None
+        """
+        An internal method to check, before anything is modified, that an
+        entry can be added under the given paths in all of the namespaces.
+        Edits that span several namespaces use this so that a bad path in
+        the second or third namespace does not leave the earlier ones
+        modified.
+
+        Parameters:
+         iso_path - The ISO9660 absolute path of the new entry, if any.
+         rr_name - The Rock Ridge name of the new entry, if any.
+         joliet_path - The Joliet absolute path of the new entry, if any.
+         udf_path - The UDF absolute path of the new entry, if any.
+         is_dir - Whether the new entry is a directory.
+         rr_optional - Whether a missing Rock Ridge name is acceptable.
+        Returns:
+         Nothing.
+        """
+        if iso_path:
+            iso_path_bytes = utils.normpath(iso_path)
+            if is_dir:
+                self._check_rr_name(rr_name)
+            elif not rr_optional or rr_name:
+                if rr_name is not None:
+                    self._check_rr_name(rr_name)
+                if self.rock_ridge and not rr_name:
+                    raise pycdlibexception.PyCdlibInvalidInput('Rock Ridge name must be supplied for a Rock Ridge new path')
+            if is_dir:
+                if not self.rock_ridge and self.enhanced_vd is None:
+                    _check_path_depth(iso_path_bytes)
+            else:
+                if not self.rock_ridge and self.interchange_level < 4:
+                    _check_path_depth(iso_path_bytes)
+            (name, parent) = self._iso_name_and_parent_from_path(iso_path_bytes)
+            if is_dir:
+                _check_iso9660_directory(name, self.interchange_level)
+            else:
+                _check_iso9660_filename(name, self.interchange_level)
+            if not parent.is_dir():
+                raise pycdlibexception.PyCdlibInvalidInput('Trying to add a child to a record that is not a directory')
+            for child in parent.children:
+                if child.file_ident == name and not child.is_associated_file():
+                    raise pycdlibexception.PyCdlibInvalidInput('Failed adding duplicate name to parent')
+
+        if joliet_path:
+            joliet_path_bytes = self._normalize_joliet_path(joliet_path)
+            (joliet_name, joliet_parent) = self._joliet_name_and_parent_from_path(joliet_path_bytes)
+            if not joliet_parent.is_dir():
+                raise pycdlibexception.PyCdlibInvalidInput('Trying to add a child to a record that is not a directory')
+            for child in joliet_parent.children:
+                if child.file_ident == joliet_name:
+                    raise pycdlibexception.PyCdlibInvalidInput('Failed adding duplicate name to parent')
+
+        if udf_path:
+            if self.udf_root is None:
+                raise pycdlibexception.PyCdlibInvalidInput('Can only specify a UDF path for a UDF ISO')
+            (udf_name, udf_parent) = self._udf_name_and_parent_from_path(utils.normpath(udf_path))
+            if udf_parent is None or not udf_parent.is_dir():
+                raise pycdlibexception.PyCdlibInvalidInput('Trying to add a child to a UDF File Entry that is not a directory')
+            # Constructing the File Identifier Descriptor checks the name.
+            probe = udfmod.UDFFileIdentifierDescriptor()
+            probe.new(is_dir, False, udf_name, udf_parent)
+            for fi_desc in udf_parent.fi_descs:
+                if not fi_desc.is_parent() and fi_desc.fi == probe.fi:
+                    raise pycdlibexception.PyCdlibInvalidInput('Failed adding duplicate name to parent')
+
     def _add_fp(self, fp, length, manage_fp, iso_path, rr_name,
                 joliet_path, udf_path, file_mode, eltorito_catalog):
         # type: (Optional[Union[BinaryIO, str]], int, bool, Optional[str], Optional[str], Optional[str], Optional[str], Optional[int], bool) -> int
@@ -3335,6 +3403,10 @@ class PyCdlib:
 
         if length > (2**32) - 1 and self.interchange_level < 3:
             raise pycdlibexception.PyCdlibInvalidInput('File sizes for interchange level < 3 must be less than 4GiB')
+
+        # Make sure that every namespace accepts the new entry before the
+        # first one is modified.
+        self._check_new_paths(iso_path, rr_name, joliet_path, udf_path, False)
 
         left = length
         offset = 0
@@ -4843,6 +4915,14 @@ class PyCdlib:
         if file_mode is None:
             file_mode = 0o040555
 
+        # Make sure that every namespace accepts the new directory before the
+        # first one is modified.
+        self._check_new_paths(iso_path, rr_name, joliet_path, udf_path, True)
+        if joliet_path is not None:
+            self._normalize_joliet_path(joliet_path)
+        if udf_path is not None and self.udf_root is None:
+            raise pycdlibexception.PyCdlibInvalidInput('Can only specify a UDF path for a UDF ISO')
+
         num_bytes_to_add = 0
         if iso_path is not None:
             iso_path_bytes = utils.normpath(iso_path)
@@ -5459,6 +5539,11 @@ class PyCdlib:
         if joliet_path is not None and self.joliet_vd is None:
             # Rule 9
             raise pycdlibexception.PyCdlibInvalidInput('A Joliet path can only be specified for a Joliet ISO')
+
+        # Make sure that every namespace accepts the new entry before the
+        # first one is modified.
+        self._check_new_paths(symlink_path, rr_symlink_name, joliet_path,
+                              udf_symlink_path, False, True)
 
         # Checks complete, we can go on to make the symlink.
 
